@@ -397,11 +397,42 @@ def reserved_prefix(c):
     return False
 
 
+def repeated_formatting(c):
+    """text_tags and formatting_tags are non-empty and some formatting element, by its serialisation (the key of its
+    placeholder: etree.tounicode without the tail), occurs more than once across the text-tag content of the two
+    documents taken together"""
+    tt, fmt = c["cfg"]["tt"], c["cfg"]["fmt"]
+    if not tt or not fmt:
+        return False
+    seen = set()
+    for s in (c["left"], c["right"]):
+        try:
+            root = etree.fromstring(s)
+        except Exception:  # noqa
+            return False
+        done, tree = set(), root.getroottree()
+        for e in root.iter():
+            if not isinstance(e.tag, str) or e.tag not in tt:
+                continue
+            for f in e.iterdescendants():
+                if isinstance(f.tag, str) and f.tag in fmt and tree.getpath(f) not in done:
+                    done.add(tree.getpath(f))
+                    g = deepcopy(f)
+                    g.tail = None
+                    k = etree.tounicode(g)
+                    if k in seen:
+                        return True
+                    seen.add(k)
+    return False
+
+
 def key_C08(c):
     if reserved_prefix(c):
         return "reserved-ns-prefix-on-root"
     if c["cfg"]["replace"] and c["cfg"]["tt"]:
         return "use_replace-with-text_tags"
+    if c.get("exc") in ("AssertionError", "IndexError") and repeated_formatting(c):
+        return "identical-formatting-elements-cross"
     return None
 
 
@@ -656,6 +687,12 @@ KNOWN_STREAM = [
     # the text after a removed comment (open finding C09/C10)
     {"left": "<a><!--c-->tail<b/></a>", "right": "<a><!--c-->tail<b/></a>", "tt": [], "fmt": [], "replace": False},
     {"left": "<a><b/><!--c-->t</a>", "right": "<a><b/>u</a>", "tt": [], "fmt": [], "replace": False},
+    # an identical formatting element more than once across the two documents (open finding C08
+    # identical-formatting-elements-cross): (A) AssertionError in _realign_placeholders, (B) IndexError in undo_string
+    {"left": "<p> <b> </b>y</p>", "right": "<p> <b> </b><b> </b>y</p>", "tt": ["p"], "fmt": ["b"], "replace": False},
+    {"left": "<p>x <b>x y</b></p>", "right": "<p><b>x y</b>xx y<b/>y</p>", "tt": ["p"], "fmt": ["b"], "replace": False},
+    {"left": "<r><p>u <i>u v</i></p><q/></r>", "right": "<r><p><i>u v</i>uu v<i/>v</p><q/></r>", "tt": ["p"], "fmt": ["i"],
+     "replace": False},
     # regression: _join_delete_insert([]) (repaired in /repo)
     {"left": "<a> </a>", "right": "<a>  </a>", "tt": [], "fmt": [], "replace": True, "normalize": WS_TEXT},
     {"left": "<a><b/> </a>", "right": "<a><b/>  </a>", "tt": [], "fmt": [], "replace": True, "normalize": WS_TEXT},
